@@ -31,6 +31,11 @@ func coincident(st *State, r *Rng, preferRoot bool) *State {
 // coincidentAt also names the node (place in st's layout) and the leaf's slot.
 func coincidentAt(st *State, r *Rng, preferRoot bool) (*State, RO, int) {
 	L := st.Layout()
+	for _, h := range L.InternalHashes() {
+		if st.IsLive(h) {
+			return nil, RO{}, 0 // the state already has such a leaf (run switch node_hash_leaf)
+		}
+	}
 	var inner, innerRoots []RO
 	for ro := range L.Nodes {
 		if !L.IsLeaf[ro] {
